@@ -213,6 +213,6 @@ int main() {
   // CPU-time watchdog (robust against machine load): a call that does not return becomes the observation `hang`
   struct sigaction sa; memset(&sa, 0, sizeof sa); sa.sa_handler = on_alarm; sigaction(SIGVTALRM, &sa, nullptr);
   const char* lim = getenv("VH_CPU_LIMIT_S");
-  struct itimerval tv; memset(&tv, 0, sizeof tv); tv.it_value.tv_sec = lim ? atoi(lim) : 20; setitimer(ITIMER_VIRTUAL, &tv, nullptr);
+  struct itimerval tv; memset(&tv, 0, sizeof tv); tv.it_value.tv_sec = lim ? atoi(lim) : 3; setitimer(ITIMER_VIRTUAL, &tv, nullptr);
   return vh::run_loop(step);
 }
